@@ -225,8 +225,14 @@ func (b *mBucket) delete(r *Cache, h *mHead, hash uint32, ns, key uint64) (done,
 	b.mu.Unlock()
 
 	if deleted {
-		// Call delete funcs.
-		for _, f := range n.delFuncs {
+		// Call delete funcs. Take them away from the node, a releaser that
+		// still holds a pointer to it and finds the cache closed would
+		// otherwise call them again (see Node.callFinalizer).
+		n.mu.Lock()
+		delFuncs := n.delFuncs
+		n.delFuncs = nil
+		n.mu.Unlock()
+		for _, f := range delFuncs {
 			f()
 		}
 
